@@ -38,6 +38,16 @@ func init() {
 	}
 }
 
+// reservedGlobals are the JavaScript globals that the generated code refers to
+// by their bare name (println compiles to console.log, a uintptr to 64-bit
+// integer conversion tests `.constructor === Number`, unsafe.Pointer(new(T))
+// and the syscall struct views allocate `new Uint8Array` / `new DataView`).
+// Like the reserved keywords they are pre-seeded into the root function
+// context, so that a Go identifier with one of these names is renamed
+// (`console$1`) instead of shadowing the global in the function that declares
+// it. Unlike reservedKeywords they do not affect label, method or field names.
+var reservedGlobals = []string{"console", "Number", "Uint8Array", "DataView"}
+
 // sanitizeName returns the given name unless it is a reserved JavaScript keyword
 // then it will append a '$' suffix to it to keep it from causing syntax errors in JS.
 func sanitizeName(name string) string {
